@@ -230,3 +230,18 @@ Definition c06_proj (ob : obs) : list ev * bool :=
 (* boolean equalities for the projections *)
 Definition evs_eqb := list_eqb ev_eqb.
 Definition pair_nat_str_eqb (a b : nat * string) : bool := Nat.eqb (fst a) (fst b) && String.eqb (snd a) (snd b).
+
+(* ---------- abrupt peers (C14, C03) ----------
+   a peer that sends one session envelope over a real transport of a real Server and vanishes at once: the callback
+   counters and the goroutine census are compared with Model B's run over [that envelope; end of stream] under the
+   configuration the scenario uses (guest scheme, everyone is allowed, encryption and compression "none") *)
+Definition abrupt_conf (k : tkind) : sconf :=
+  {| sc_comp := ["none"]; sc_enc := ["none"]; sc_schemes := ["guest"]; sc_kind := k; sc_tls_ok := false; sc_sid := "SID" |}.
+Definition allow_all : oracle := {| o_auth := fun _ _ _ _ => ARole; o_reg := fun f => RNode (100 + f) |}.
+Definition count_ev (p : ev -> bool) (t : list ev) : nat := List.length (filter p t).
+Definition abrupt_model (k : tkind) (first : cses) : nat * nat * bool :=
+  let r := handle_channel s_repaired (abrupt_conf k) allow_all [CSes first; CEof] in
+  (count_ev (fun e => match e with EstCb => true | _ => false end) (rr_trace r),
+   count_ev (fun e => match e with FinCb => true | _ => false end) (rr_trace r),
+   rr_handler_ended r).
+
